@@ -461,7 +461,7 @@ Proof.
   all: match goal with |- R (@set ?a ?b ?cc ?dd ?ee ?st) ?qq = _ \/ _ => rewrite (R_same_queues st (@set a b cc dd ee st) qq eq_refl) end.
   all: set (s2 := upd_queue s1 (c_queue cm) _).
   all: assert (R2 : R s2 q = if seqb q (c_queue cm) then Some rest else R s q)
-         by (subst s2; rewrite (R_upd_queue_at _ _ _ qu) by exact E1; cbn; rewrite R1; reflexivity).
+         by (subst s2; rewrite (R_upd_queue_at _ _ _ qu) by exact E1; rewrite q_ready_popped, R1; reflexivity).
   all: clearbody s2.
   all: match goal with |- R ?st ?qq = _ \/ _ => assert (RF : R st qq = R s2 qq) end.
   all: try (destruct (c_noack cm);
